@@ -13,14 +13,15 @@ PROP = "C18"
 EXTRA_TARGETS = ["Auto/Corr.vo"]
 META = {
  "engine": "S-scheduler-automation",
- "text": "Coq theorems (Props/C18.v, closed under the global context) about an executable model over exact rationals of isobar/timelines/automation.py and lfo.py: for every duration N >= 1 ticks and envelope length 0 <= E <= N the envelope weights (linspace ramps written by the two slice assignments in the code's order, divided by their mean) are >= 0 and sum to N; after move_to / move_by with any duration >= 0 and envelope fraction in [0,1] the value after max(ceil(round8(duration*tpb)),1) ticks is exactly the target, every step in between moves toward it and nothing moves afterwards; whole-tick durations give exactly that many ticks despite float error; the reported value is in [lo,hi] (clip) / [lo,hi) (wrap), congruent modulo the width and unchanged when inside; every change calls every binding exactly once with the new reported value; a sine LFO stays in [min,max], repeats after ticks_per_beat/frequency ticks when that is whole and PLFO yields exactly lfo.value (sin enters as a Section variable with -1 <= sin2pi x <= 1 and sin2pi (x+1) == sin2pi x). The model is tied to the repository on every run: generated scenarios (move_to / move_by / jump_to / bind_to, overlapping and interrupted moves, clip / wrap / no range, 0-3 bindings of both kinds, ticks_per_beat 10/24/96/480, durations 0 .. 16 beats whole and fractional, envelope fractions 0 .. 1, malformed calls) are executed on a manually ticked Timeline and compared inside coqc with the model after every operation and tick (values to 1e-9, change / call pattern and rejected calls exactly); LFOs are compared with the model evaluated on a table of math.sin values and read through PLFO from scheduled tracks. An independent Fraction oracle judges arrival tick, target, monotonicity, range, calls, LFO range / period / pattern read on the implementation's trace alone.",
- "note": "Trusted: Coq kernel + VM; the Python harness and driver; libm's sin (math.sin values enter the model as a table; the theorems assume only boundedness and periodicity of sin2pi as Section hypotheses); IEEE double arithmetic of numpy/CPython is validated against exact rationals to 1e-9, not modelled, so 'exactly the target' is exact in the model and 1e-9 on the implementation. int(envelope * ticks) and round(x, 8) are modelled on exact rationals; cases where the float product and the exact product fall on different sides of an integer / rounding tie are discarded (counted). Not covered: bounce_to, curve='exponential', ease, boundaries='fold' (unimplemented in isobar), LFO.update/pause, value_changed_callbacks (never invoked by isobar).",
+ "text": "Coq theorems (Props/C18.v, closed under the global context) about an executable model over exact rationals of isobar/timelines/automation.py and lfo.py: for every duration N >= 1 ticks and envelope length 0 <= E <= N the envelope weights (linspace ramps written by the two slice assignments in the code's order, divided by their mean) are >= 0 and sum to N; after move_to / move_by with any duration >= 0 and envelope fraction in [0,1] the value after max(ceil(round8(duration*tpb)),1) ticks is exactly the target, every step in between moves toward it and nothing moves afterwards; whole-tick durations give exactly that many ticks despite float error; the reported value is in [lo,hi] (clip) / [lo,hi) (wrap), congruent modulo the width and unchanged when inside; every change calls every binding exactly once with the new reported value; a sine LFO stays in [min,max], repeats after ticks_per_beat/frequency ticks when that is whole and PLFO yields exactly lfo.value (sin enters as a Section variable with -1 <= sin2pi x <= 1 and sin2pi (x+1) == sin2pi x). The model is tied to the repository on every run: generated scenarios (move_to / move_by / jump_to / bind_to, overlapping and interrupted moves, clip / wrap / no range, 0-3 bindings of both kinds, ticks_per_beat 10/24/96/480, durations 0 .. 16 beats whole and fractional, envelope fractions 0 .. 1, malformed calls) are executed on a manually ticked Timeline and compared inside coqc with the model after every operation and tick (values to 1e-9, change / call pattern and rejected calls exactly); LFOs are compared with the model evaluated on a table of math.sin values and read through PLFO from scheduled tracks. LFOs and automations are also re-configured at random ticks (attribute assignment, LFO.update, Timeline.lfo under the name of an existing LFO, LFO.reset; range / boundaries / default_duration of an automation right after a call, mid-move and after arrival): the model carries the parameters in its state (theorems C18_lfo_reconfig_range / _config / _periodic, C18_timeline_lfo_in_place, C18_reconfig_auto) and the oracle judges every tick against the configuration given last. An independent Fraction oracle judges arrival tick, target, monotonicity, range, calls, LFO range / period / pattern read on the implementation's trace alone.",
+ "note": "Trusted: Coq kernel + VM; the Python harness and driver; libm's sin (math.sin values enter the model as a table; the theorems assume only boundedness and periodicity of sin2pi as Section hypotheses); IEEE double arithmetic of numpy/CPython is validated against exact rationals to 1e-9, not modelled, so 'exactly the target' is exact in the model and 1e-9 on the implementation. int(envelope * ticks) and round(x, 8) are modelled on exact rationals; cases where the float product and the exact product fall on different sides of an integer / rounding tie are discarded (counted). Re-configuration after construction (lfo.min/max/frequency assigned, LFO.update, Timeline.lfo(name=existing), LFO.reset; automation.range / boundaries / default_duration re-assigned, also mid-move) is modelled, proved (in range of the CURRENT bounds after any history, period of the CURRENT frequency, moves arrive as they would have) and compared on every run; the value shown between a re-configuration and the next tick and binding calls at a range assignment are compared with the model only. Not covered: bounce_to, curve='exponential', ease, boundaries='fold' (unimplemented in isobar), LFO.pause/unpause/stop, value_changed_callbacks (never invoked by isobar).",
 }
 
 HEADER = """From Isobar Require Import Base.Prelude Auto.Automation Auto.Lfo Auto.Corr.
 From Coq Require Import QArith Uint63.
 Local Open Scope Q_scope.
 Definition S_ (o : option op) (e : option (int * list (Z * int))) (t : list int) := mkSeg o e t.
+Definition LS_ (o : option lfo_op) (v : option int) (t : list int) := mkLseg o v t.
 """
 
 TPBS = [10, 24, 96, 480]
@@ -53,6 +54,12 @@ def op_term(op):
         return "(Some (OJumpTo %s))" % qlit(op[1])
     if k == "bind":
         return "(Some (OBind %d%%Z))" % op[-1]
+    if k == "set_range":
+        return "(Some (OSetRange %s))" % ("None" if op[1] is None else "(Some (%s, %s))" % (qlit(op[1][0]), qlit(op[1][1])))
+    if k == "set_boundaries":
+        return "(Some (OSetBound %s))" % ("Wrap" if op[1] == "wrap" else "Clip")
+    if k == "set_default":
+        return "(Some (OSetDefault %s))" % qlit(op[1])
     raise CheckError("op %r" % (op,))
 
 
@@ -126,6 +133,8 @@ def vouchable(sc):
     dd = sc.get("default_duration")
     for sg in sc["segs"]:
         op = sg.get("op")
+        if op is not None and op[0] == "set_default":
+            dd = op[1]
         if op is None or op[0] not in ("move_to", "move_by"):
             continue
         d = op[2] if op[2] is not None else (0.0 if dd is None else dd)
@@ -169,16 +178,17 @@ def oracle_auto(sc, info, res):
     """Judges the implementation's trace alone.  Returns list of (kind, detail, tick)."""
     bad = []
     tpb = sc["tpb"]
-    rng = sc.get("range")
-    wrapm = rng is not None and sc.get("boundaries") == "wrap"
+    # the range and boundary mode declared LAST (they may be re-assigned after construction)
+    cfg = {"range": sc.get("range"), "boundaries": sc.get("boundaries")}
     nbind = 0
 
     def in_range(x, where):
+        rng = cfg["range"]
         if rng is None:
             return
         lo, hi = rng
         if not (lo - 1e-12 * max(1, abs(lo)) <= x <= hi + 1e-12 * max(1, abs(hi))):
-            bad.append(("out-of-range", "value %r outside range %r (%s) %s" % (x, rng, sc.get("boundaries"), where), None))
+            bad.append(("out-of-range", "value %r outside range %r (%s) %s" % (x, rng, cfg["boundaries"], where), None))
 
     # exact bookkeeping from the property text
     init = info["initial_exact"]
@@ -187,8 +197,8 @@ def oracle_auto(sc, info, res):
     arrive = 0             # tick count by which every active move has arrived
     direction = 0          # +1 / -1 / 0 known direction of all active moves, None = mixed or unknown
     t = 0                  # ticks so far
-    if not approx_report(sc, res["init"], init):
-        bad.append(("initial-value", "value after creation is %r, expected %r" % (res["init"], float(report_exact(sc, init))), 0))
+    if not approx_report(cfg, res["init"], init):
+        bad.append(("initial-value", "value after creation is %r, expected %r" % (res["init"], float(report_exact(cfg, init))), 0))
     in_range(res["init"], "after creation")
     prev = res["init"]
     if not res.get("registered"):
@@ -235,6 +245,10 @@ def oracle_auto(sc, info, res):
                     direction = None
             elif op[0] == "bind":
                 nbind += 1
+            elif op[0] == "set_range":
+                cfg["range"] = op[1]
+            elif op[0] == "set_boundaries":
+                cfg["boundaries"] = op[1]
         # observation right after the operation
         x = r["value"]
         in_range(x, "after %s" % (op,))
@@ -244,11 +258,15 @@ def oracle_auto(sc, info, res):
             if r["calls"]:
                 bad.append(("binding-call", "%s called bindings %r" % (op[0], r["calls"]), t))
         if op is not None and op[0] == "jump_to":
-            if t >= arrive and cv is not None and not approx_report(sc, x, cv):
+            if t >= arrive and cv is not None and not approx_report(cfg, x, cv):
                 bad.append(("jump-value", "jump_to(%r) reports %r" % (op[1], x), t))
             ids = [c[0] for c in r["calls"]]
             if ids != list(range(nbind)) or not all(c[1] == x and c[2] for c in r["calls"]):
                 bad.append(("binding-call", "jump_to(%r): value %r, bindings received %r (expected one call each of %d bindings with the value)" % (op[1], x, r["calls"], nbind), t))
+        if op is not None and op[0] in ("set_range", "set_boundaries", "set_default") and valid:
+            # the reported value is the current value clipped / wrapped into the range declared now
+            if t >= arrive and cv is not None and not approx_report(cfg, x, cv):
+                bad.append(("reconfig-value", "after %r the settled value %r is reported as %r, expected %r" % (op, float(cv), x, float(report_exact(cfg, cv))), t))
         if op is not None and op[0] == "bind":
             if [c[0] for c in r["calls"]] != [nbind - 1] or r["calls"][0][1] != x or not r["calls"][0][2]:
                 bad.append(("binding-call", "bind_to: value %r, new binding received %r" % (x, r["calls"]), t))
@@ -261,11 +279,11 @@ def oracle_auto(sc, info, res):
             elif nbind and code == 0 and not approx(x, prev, 1e-12):
                 bad.append(("binding-missed", "tick %d: value changed %r -> %r but no binding was called" % (t, prev, x), t))
             if t >= arrive and target is not None:
-                if not approx_report(sc, x, target):
-                    bad.append(("not-on-target", "tick %d (move due by tick %d): value %r, target %r" % (t, arrive, x, float(report_exact(sc, target))), t))
+                if not approx_report(cfg, x, target):
+                    bad.append(("not-on-target", "tick %d (move due by tick %d): value %r, target %r" % (t, arrive, x, float(report_exact(cfg, target))), t))
             elif t < arrive or target is None:
                 pass
-            if direction is not None and not wrapm:
+            if direction is not None and not (cfg["range"] is not None and cfg["boundaries"] == "wrap"):
                 step = x - prev
                 tol = 1e-9 * max(1.0, abs(x))
                 if t <= arrive:
@@ -353,9 +371,12 @@ def make_case(tpb, segs_infos, rangecfg=None, initial=None, default_duration=Non
     else:
         ie = Fraction(initial)
     info = {"segs": [i for _, i in segs_infos], "initial_exact": ie}
+    dd = default_duration
     for sg, oi in zip(sc["segs"], info["segs"]):
+        if sg.get("op") is not None and sg["op"][0] == "set_default":
+            dd = sg["op"][1]
         if oi.get("D") is None and sg.get("op") is not None and sg["op"][0] in ("move_to", "move_by"):
-            oi["D"] = Fraction(0.0 if default_duration is None else default_duration)
+            oi["D"] = Fraction(0.0 if dd is None else dd)
     number_bind_ops(sc)
     return sc, info
 
@@ -514,6 +535,74 @@ def gen_random(run, n, long_cases):
     return cases
 
 
+def gen_reconfig(run, n):
+    """the automation is re-configured after construction: range / boundaries re-assigned while a move is running
+    (also right after the call, before any tick), after it has arrived, default_duration re-assigned before a move
+    that relies on it"""
+    rng = run.rng
+    cases = []
+    for ci in range(n):
+        tpb = rng.choice(TPBS)
+        rangecfg = None
+        if rng.random() < 0.8:
+            lo, hi = rng.choice(RANGES)
+            rangecfg = (lo, hi, rng.choice(["clip", "wrap"]))
+        initial = None if rng.random() < 0.25 else rand_value(rng, rangecfg)
+        default_duration = rng.choice([None, 0.0, float(Fraction(3, tpb)), 0.5])
+        cur_dd = default_duration
+        cur = rangecfg
+
+        def reconfig_segs(ticks):
+            nonlocal cur
+            out = []
+            r = rng.random()
+            if r < 0.6 or cur is None:
+                if rng.random() < 0.12:
+                    new = None
+                elif cur is not None and rng.random() < 0.4:
+                    lo, hi = cur[0], cur[1]     # a part of the present range, or a range next to it
+                    w = hi - lo
+                    new = rng.choice([(lo, lo + w / 2), (lo + w / 2, hi), (lo + w / 4, lo + w / 2), (hi, hi + w), (lo - w, lo), (lo - w, hi + w)])
+                else:
+                    new = rng.choice(RANGES)
+                out.append(["set_range", None if new is None else [new[0], new[1]]])
+                cur = None if new is None else (new[0], new[1], cur[2] if cur is not None else "clip")
+                run.dist("auto.reconfig.range.%s" % ("none" if new is None else "some"))
+            if r >= 0.6 or rng.random() < 0.3:
+                b = rng.choice(["clip", "wrap"])
+                out.append(["set_boundaries", b])
+                if cur is not None:
+                    cur = (cur[0], cur[1], b)
+            return [({"op": o, "ticks": ticks if i == len(out) - 1 else 0}, {}) for i, o in enumerate(out)]
+        segs = [bind_seg(rng) for _ in range(rng.choice([0, 1, 1, 2]))]
+        for oi in range(rng.randint(1, 4)):
+            kind = rng.choice(["move_to", "move_to", "move_by"])
+            D = rand_duration(rng, tpb)
+            e = rand_env(rng) if rng.random() < 0.9 else None
+            v = rand_value(rng, cur)
+            if kind == "move_by":
+                v = rng.choice([v, -v, v / 4, 1.0, -0.5])
+            mode = rng.random()
+            if mode < 0.2:
+                d = rng.choice([0.0, float(Fraction(2, tpb)), float(Fraction(5, tpb)), 0.25])
+                segs.append(({"op": ["set_default", d], "ticks": rng.choice([0, 0, 1])}, {}))
+                cur_dd = d
+                D = None
+                run.dist("auto.reconfig.default_duration")
+            n_t = max(math.ceil((Fraction(0.0 if cur_dd is None else cur_dd) if D is None else D) * tpb), 1)
+            if mode < 0.65:
+                k = rng.randint(0, n_t - 1)
+                segs.append(mk_move(kind, v, D, e, k))
+                segs += reconfig_segs(n_t - k + rng.choice([0, 1, 3]))
+                run.dist("auto.reconfig.%s" % ("right-after-the-call" if k == 0 else "mid-move"))
+            else:
+                segs.append(mk_move(kind, v, D, e, n_t + rng.choice([0, 1])))
+                segs += reconfig_segs(rng.choice([0, 1, 2]))
+                run.dist("auto.reconfig.after-arrival")
+        cases.append(make_case(tpb, segs, rangecfg, initial, default_duration, rng.choice([None, None, 1, 3]), tag="reconfig"))
+    return cases
+
+
 def gen_malformed(run):
     """calls outside the property's domain: the real code rejects some and accepts others; compared with the model only"""
     cases = []
@@ -545,6 +634,272 @@ def gen_lfos(run, n):
     return out
 
 
+
+# ---- LFOs re-configured after construction ---------------------------------------------------------------------
+LFO_KEYS = {"frequency": "KFreq", "min": "KMin", "max": "KMax"}
+LFO_WHOLE = {10: [1.0, 2.0, 0.5, 2.5, 5.0], 24: [1.0, 2.0, 3.0, 4.0, 6.0, 0.5, 1.5, 8.0],
+             96: [1.0, 2.0, 4.0, 8.0, 3.0, 6.0, 1.5], 480: [4.0, 8.0, 5.0, 2.5, 6.0, 7.5]}
+LFO_RANGES = [(0.0, 1.0), (2.0, 5.0), (-1.0, 1.0), (0.0, 127.0), (-7.5, -2.25), (0.1, 0.3), (3.0, 3.0), (20.0, 20000.0),
+              (60.0, 72.0), (64.0, 65.0), (0.0, 10.0), (-3.0, 12.5)]
+
+
+def lfo_props(params):
+    """the model's view of a property dict, in dict order (shape has no field in the model)"""
+    return [(k, v) for k, v in params if k in LFO_KEYS]
+
+
+def lfo_op_term(op):
+    if op is None or op[0] in ("tl_other", "new_pattern"):
+        return "None"
+    if op[0] == "reset":
+        return "(Some LReset)"
+    props = [(op[1], op[2])] if op[0] == "set" else lfo_props(op[1])
+    return "(Some (LUpdate %s))" % lst(["(%s, %s)" % (LFO_KEYS[k], qlit(v)) for k, v in props])
+
+
+def lfo_script_term(sc, res):
+    """Coq boolean: the model reproduces every value the implementation showed, and Timeline.lfo found / created
+    the LFOs the model says"""
+    tpb = sc["tpb"]
+    F, t = Fraction(sc["freq"]), Fraction(0)
+    tab, segs, extra, others = {}, [], [], []
+    for sg, r in zip(sc["segs"], res["segs"]):
+        op = sg.get("op")
+        if op is not None:
+            if op[0] == "reset":
+                t = Fraction(0)
+            elif op[0] == "set" and op[1] == "frequency":
+                F = Fraction(op[2])
+            elif op[0] in ("update", "tl_lfo"):
+                for k, v in op[1]:
+                    if k == "frequency":
+                        F = Fraction(v)
+            if op[0] in ("tl_lfo", "tl_other"):
+                name = "(Some 0%Z)" if op[0] == "tl_lfo" else ("(Some %d%%Z)" % (len(others) + 1) if op[2] else "None")
+                extra.append("check_tl_lfo %s %s %s (Some (%s, %d%%Z))" % (
+                    lst(others), name, lst(["(%s, %s)" % (LFO_KEYS[k], qlit(v)) for k, v in lfo_props(op[1])]),
+                    blit(bool(r["same"])), r["n_lfos"]))
+                if op[0] == "tl_other":
+                    others.append(name)
+        for _ in r["ticks"]:
+            t += Fraction(1, tpb)
+            x = t * F
+            tab[(x.numerator, x.denominator)] = math.sin(2 * math.pi * float(x % 1))
+        segs.append("LS_ %s %s %s%%uint63" % (lfo_op_term(op), "None" if op is None else "(Some %s%%uint63)" % ilit(r["value"]),
+                                            lst([ilit(v[0]) for v in r["ticks"]])))
+    table = lst(["se %d %d %s" % (n, d, ilit(v, 0, 10 ** 15)) for (n, d), v in tab.items()])
+    return " && ".join(["check_lfo_script %s %d%%Z %s %s %s %s%%uint63 %s" % (
+        table, tpb, qlit(sc["freq"]), qlit(sc["min"]), qlit(sc["max"]), ilit(res["init"]), lst(segs))] + extra)
+
+
+def oracle_lfo_script(sc, res):
+    """Judges the implementation's trace alone: after every tick the value lies within the [min, max] the LFO has
+    been given LAST, repeats with the period of the frequency it has been given LAST, and every pattern read
+    (twice through one PLFO, once through a fresh one) and the bound attribute show that same value.  The value
+    between a re-configuration and the next tick is not judged (the text does not say when the new range shows),
+    only that a pattern reads the same as lfo.value."""
+    bad = []
+    if res["raise"] is not None:
+        return [("raises", "LFO scenario raised %s: %s" % (res["raise"], res.get("message")), None)]
+    cur = {"frequency": sc["freq"], "min": sc["min"], "max": sc["max"]}
+    known = True           # False once Timeline.lfo(name=...) did not hand back the same object (not decided by the text)
+
+    def in_range(x, where, tick):
+        lo, hi = cur["min"], cur["max"]
+        if known and lo <= hi:
+            eps = 1e-12 * max(1.0, abs(lo), abs(hi))
+            if not (lo - eps <= x <= hi + eps):
+                bad.append(("lfo-out-of-range", "%s: value %r outside the current [min, max] = [%r, %r]" % (where, x, lo, hi), tick))
+    in_range(res["init"], "before the first tick", 0)
+    if res["pattern_class"] != "PLFO" or res["init_pattern"] != res["init"]:
+        bad.append(("lfo-pattern", "Pattern.pattern(lfo) is %s and reads %r, lfo.value is %r" % (res["pattern_class"], res["init_pattern"], res["init"]), 0))
+    if not res.get("registered"):
+        bad.append(("not-registered", "timeline.lfo() did not register the LFO", 0))
+    flat = []              # value after every tick
+    stretches = [[0, dict(cur), True]]    # first tick index, configuration, judged — ticks between two re-configurations
+    for sg, r in zip(sc["segs"], res["segs"]):
+        op = sg.get("op")
+        if op is not None:
+            if op[0] == "set":
+                cur[op[1]] = op[2]
+            elif op[0] == "update":
+                cur.update({k: v for k, v in op[1] if k in cur})
+            elif op[0] == "tl_lfo":
+                if r["same"]:
+                    cur.update({k: v for k, v in op[1] if k in cur})
+                else:
+                    known = False
+            if op[0] in ("set", "update", "tl_lfo", "reset"):
+                stretches.append([len(flat), dict(cur), known])
+            if any(p != r["value"] for p in r["pattern"]):
+                bad.append(("lfo-pattern", "after %r: lfo.value %r, pattern reads %r" % (op, r["value"], r["pattern"]), len(flat)))
+        for x, p1, p2, p3, b in r["ticks"]:
+            flat.append(x)
+            k = len(flat)
+            in_range(x, "tick %d" % k, k)
+            if not (p1 == x and p2 == x and p3 == x and (b == x or not known)):
+                bad.append(("lfo-pattern", "tick %d: lfo.value %r, pattern reads %r %r, fresh pattern %r, bound attribute %r" % (k, x, p1, p2, p3, b), k))
+    for i, (start, cfg, judged) in enumerate(stretches):
+        end = stretches[i + 1][0] if i + 1 < len(stretches) else len(flat)
+        vals = flat[start:end]
+        if not judged or cfg["frequency"] <= 0:
+            continue
+        period = Fraction(sc["tpb"]) / Fraction(cfg["frequency"])
+        if period.denominator != 1:
+            continue
+        p = int(period)
+        lo, hi = cfg["min"], cfg["max"]
+        tol = 1e-9 * max(1.0, abs(lo), abs(hi), abs(hi - lo))
+        for k in range(len(vals) - p):
+            if abs(vals[k + p] - vals[k]) > tol:
+                bad.append(("lfo-not-periodic", "frequency %r since tick %d: value after tick %d is %r, one period (%d ticks) later %r" % (
+                    cfg["frequency"], start, start + k + 1, vals[k], p, vals[k + p]), start + k + 1))
+                break
+        if p >= 4 and len(vals) >= p and hi > lo:
+            if not (min(vals[:p]) < (lo + hi) / 2 - 0.2 * (hi - lo) and max(vals[:p]) > (lo + hi) / 2 + 0.2 * (hi - lo)):
+                bad.append(("lfo-not-periodic", "range [%r, %r] since tick %d: one period (%d ticks) spans only [%r, %r]" % (
+                    lo, hi, start, p, min(vals[:p]), max(vals[:p])), start + p))
+    for name in ("controls", "action_args"):
+        got = res[name]
+        if flat and not got:
+            bad.append(("lfo-track-silent", "scheduled track (%s) never ran" % name, None))
+        for j, v in got:
+            if j < len(flat) and v != flat[j]:
+                bad.append(("track-reads-stale", "%s: track event in tick %d read %r through the pattern, lfo.value after that tick's update is %r" % (name, j + 1, v, flat[j]), j + 1))
+                break
+    return bad
+
+
+def lfo_period_ticks(tpb, f):
+    per = Fraction(tpb) / Fraction(f) if f > 0 else Fraction(12)
+    return int(per) if per.denominator == 1 else max(4, min(int(per), 40))
+
+
+def new_lfo_range(rng, cur, run):
+    """a range to move to: narrower inside the current one, wider around it, disjoint, or any"""
+    lo, hi = cur["min"], cur["max"]
+    w = hi - lo
+    r = rng.random()
+    if r < 0.25 and w > 0:
+        run.dist("lfo.reconfig.range.narrower")
+        a = rng.choice([0.0, 0.25, 0.5]); b = rng.choice([0.125, 0.25, 0.5])
+        return (lo + a * w, lo + (a + b) * w)
+    if r < 0.45:
+        run.dist("lfo.reconfig.range.wider")
+        g = max(w, 1.0)
+        return (lo - g * rng.choice([0.0, 1.0, 2.5]), hi + g * rng.choice([0.5, 1.0, 4.0]))
+    if r < 0.65:
+        run.dist("lfo.reconfig.range.disjoint")
+        g = max(w, 1.0)
+        return (hi + g, hi + g * rng.choice([1.5, 2.0, 3.0])) if rng.random() < 0.5 else (lo - 3 * g, lo - g * rng.choice([1.0, 2.0]))
+    run.dist("lfo.reconfig.range.any")
+    return rng.choice(LFO_RANGES)
+
+
+def gen_lfo_scripts(run, n):
+    rng = run.rng
+    out = []
+    # one script per way of re-configuring, range and frequency (fixed part: every stratum is reached on every seed)
+    fixed = [
+        (24, 0.5, (0.0, 1.0), [(None, 30), (["tl_lfo", [["min", 60.0], ["max", 72.0], ["frequency", 2.0]]], 30), (["set", "min", 64.0], 0), (["set", "max", 65.0], 30)]),
+        (24, 2.0, (2.0, 5.0), [(None, 0), (["update", [["max", 9.0]]], 14), (["update", [["frequency", 4.0], ["min", -1.0]]], 15), (["reset"], 8)]),
+        (10, 1.0, (-1.0, 1.0), [(None, 3), (["set", "frequency", 2.0], 13), (["set", "max", 0.0], 7), (["set", "min", -0.25], 7)]),
+        (96, 4.0, (0.0, 127.0), [(None, 30), (["tl_lfo", [["shape", "sine"], ["max", 1.0]]], 26), (["new_pattern"], 5), (["tl_other", [["shape", "sine"], ["frequency", 1.0], ["min", 500.0], ["max", 600.0]], True], 26), (["tl_lfo", [["min", 0.5]]], 26)]),
+        (480, 8.0, (0.1, 0.3), [(None, 61), (["set", "frequency", 5.0], 100), (["update", [["min", 0.2], ["max", 0.8], ["frequency", 7.5]]], 70)]),
+        (24, 1.0, (3.0, 3.0), [(None, 5), (["set", "max", 4.0], 26), (["tl_other", [["shape", "sine"], ["frequency", 3.0]], False], 3), (["update", [["min", 3.5]]], 26)]),
+    ]
+    for tpb, f, (lo, hi), segs in fixed[:n]:
+        out.append({"tpb": tpb, "freq": f, "min": lo, "max": hi, "every": 1 + len(out) % 3, "tag": "fixed",
+                    "segs": [{"op": op, "ticks": t} for op, t in segs]})
+    while len(out) < n:
+        tpb = rng.choice(TPBS)
+        pick_f = lambda: rng.choice(LFO_WHOLE[tpb]) if rng.random() < 0.85 else rng.choice([0.7, 1.1, 0.3, 3.3, round(rng.uniform(0.05, 9), 2)])
+        lo, hi = rng.choice(LFO_RANGES)
+        cur = {"frequency": pick_f(), "min": lo, "max": hi}
+        sc = {"tpb": tpb, "freq": cur["frequency"], "min": lo, "max": hi, "every": rng.choice([1, 2, 3, 5]), "tag": "random", "segs": []}
+        budget = min(400, 16 * tpb)
+
+        def some_ticks():
+            nonlocal budget
+            p = lfo_period_ticks(tpb, cur["frequency"])
+            k = rng.choice([p + rng.randint(1, 5), p + rng.randint(1, 5), 2 * p + 1, p // 2, 1, 2, 0])
+            k = max(0, min(k, budget))
+            budget -= k
+            return k
+        first = rng.choice([0, 0, 1, 3, None])
+        sc["segs"].append({"op": None, "ticks": some_ticks() if first is None else first})
+        if sc["segs"][0]["ticks"] == 0:
+            run.dist("lfo.reconfig.before-first-tick")
+        for _ in range(rng.randint(1, 5)):
+            r = rng.random()
+            if r < 0.30:
+                key = rng.choice(["min", "max", "frequency", "min", "max"])
+                if key == "frequency":
+                    v = pick_f()
+                else:
+                    nlo, nhi = new_lfo_range(rng, cur, run)
+                    v = nlo if key == "min" else nhi
+                    if (key == "min" and v > cur["max"]) or (key == "max" and v < cur["min"]):
+                        if rng.random() < 0.8:
+                            v = cur["max"] if key == "min" else cur["min"]      # degenerate, not inverted
+                        else:
+                            run.dist("lfo.reconfig.range.inverted")
+                op = ["set", key, v]
+                cur[key] = v
+            elif r < 0.80:
+                kind = "update" if r < 0.55 else "tl_lfo"
+                keys = rng.choice([["min", "max"], ["max", "min"], ["frequency"], ["min", "max", "frequency"], ["frequency", "max", "min"],
+                                   ["min"], ["max"], ["frequency", "min"]])
+                nlo, nhi = new_lfo_range(rng, cur, run)
+                vals = {"min": nlo, "max": nhi, "frequency": pick_f()}
+                if "min" in keys and "max" not in keys and nlo > cur["max"]:
+                    vals["min"] = cur["max"]
+                if "max" in keys and "min" not in keys and nhi < cur["min"]:
+                    vals["max"] = cur["min"]
+                params = [[k, vals[k]] for k in keys]
+                if kind == "tl_lfo" and rng.random() < 0.3:
+                    params.insert(rng.randint(0, len(params)), ["shape", "sine"])
+                op = [kind, params]
+                cur.update({k: v for k, v in params if k in cur})
+            elif r < 0.86:
+                op = ["reset"]
+            elif r < 0.93:
+                a, b = rng.choice(LFO_RANGES)
+                op = ["tl_other", [["shape", "sine"], ["frequency", pick_f()], ["min", a], ["max", b]], rng.random() < 0.6]
+            else:
+                op = ["new_pattern"]
+            sc["segs"].append({"op": op, "ticks": some_ticks()})
+        out.append(sc)
+    return out
+
+
+def snippet_lfo_script(sc):
+    lines = ["import isobar as iso", "class Dev(iso.OutputDevice): pass",
+             "tl = iso.Timeline(output_device=Dev(), clock_source=iso.DummyClock(ticks_per_beat=%d))" % sc["tpb"],
+             "lfo = tl.lfo({'shape': 'sine', 'frequency': %r, 'min': %r, 'max': %r}, name='mod'); p = iso.PLFO(lfo); k = 0" % (sc["freq"], sc["min"], sc["max"]),
+             "def show(what): print(what, 'value', lfo.value, 'pattern', next(p), 'min', lfo.min, 'max', lfo.max, 'frequency', lfo.frequency)",
+             "show('created')"]
+    nother = 0
+    for sg in sc["segs"]:
+        op = sg.get("op")
+        if op is not None:
+            if op[0] == "set":
+                lines.append("lfo.%s = %r; show('set')" % (op[1], op[2]))
+            elif op[0] == "update":
+                lines.append("lfo.update(%r); show('update')" % dict(op[1]))
+            elif op[0] == "tl_lfo":
+                lines.append("r = tl.lfo(%r, name='mod'); show('timeline.lfo same=%%s n=%%d' %% (r is lfo, len(tl.lfos)))" % dict(op[1]))
+            elif op[0] == "tl_other":
+                nother += 1
+                lines.append("tl.lfo(%r%s); show('other lfo')" % (dict(op[1]), ", name='other%d'" % nother if op[2] else ""))
+            elif op[0] == "reset":
+                lines.append("lfo.reset(); show('reset')")
+            elif op[0] == "new_pattern":
+                lines.append("p = iso.PLFO(lfo); show('new PLFO')")
+        if sg.get("ticks"):
+            lines.append("for _ in range(%d): tl.tick(); k += 1; show('tick %%d' %% k)" % sg["ticks"])
+    return "\n".join(lines)
+
 # ---- snippets ----------------------------------------------------------------------------------------------
 def snippet_auto(sc, upto_tick=None):
     kw = []
@@ -572,6 +927,12 @@ def snippet_auto(sc, upto_tick=None):
                 lines.append("a.%s(%s); print('%s ->', a.value)" % (op[0], ", ".join(args), op[0]))
             elif op[0] == "jump_to":
                 lines.append("a.jump_to(%r); print('jump_to ->', a.value)" % op[1])
+            elif op[0] == "set_range":
+                lines.append("a.range = %r; print('range re-assigned ->', a.value)" % (None if op[1] is None else tuple(op[1]),))
+            elif op[0] == "set_boundaries":
+                lines.append("a.boundaries = %r; print('boundaries re-assigned ->', a.value)" % op[1])
+            elif op[0] == "set_default":
+                lines.append("a.default_duration = %r" % op[1])
             elif op[0] == "bind":
                 if op[1] == "attr":
                     lines.append("a.bind_to(T(%d), 'level')" % op[-1])
@@ -623,13 +984,16 @@ def run_autos(run, cases):
         run.dist("auto.%s" % sc["tag"])
         run.dist("auto.tpb%d" % sc["tpb"])
         run.dist("auto.range.%s" % (sc["boundaries"] if sc["range"] else "none"))
+        cur_dd = sc.get("default_duration") or 0.0
         for sg in sc["segs"]:
             op = sg.get("op")
             if op is None:
                 continue
             run.dist("op.%s" % op[0])
+            if op[0] == "set_default":
+                cur_dd = op[1]
             if op[0] in ("move_to", "move_by"):
-                d = op[2] if op[2] is not None else (sc.get("default_duration") or 0.0)
+                d = op[2] if op[2] is not None else cur_dd
                 n = model_ticks(sc["tpb"], d)
                 run.dist("duration.%s" % ("zero" if n == 0 else "one-tick" if n == 1 else "negative" if (n or 0) < 0 else
                                           "short" if (n or 0) <= 32 else "long" if (n or 0) <= 1000 else "very-long"))
@@ -726,17 +1090,74 @@ def run_lfos(run, scs):
             "python": snippet_lfo(sc)})
 
 
+def run_lfo_scripts(run, scs):
+    if not scs:
+        return
+    shards = [scs[i::8] for i in range(8) if scs[i::8]]
+    outs = run.impl_parallel("c18_impl", [{"lfo_scripts": sh} for sh in shards])
+    results = {}
+    for sh, out in zip(shards, outs):
+        for sc, r in zip(sh, out["lfo_scripts"]):
+            results[id(sc)] = r
+    terms, meta = [], []
+    for sc in scs:
+        res = results[id(sc)]
+        run.count(1)
+        run.dist("lfo.script.%s" % sc.get("tag", "replay"))
+        for sg in sc["segs"]:
+            if sg.get("op") is not None:
+                run.dist("lfo.reconfig.%s" % (sg["op"][0] if sg["op"][0] != "set" else "set-" + sg["op"][1]))
+        bad = oracle_lfo_script(sc, res)
+        nt = sum(len(r["ticks"]) for r in res["segs"])
+        run.cov["oracle_evaluations"] += 5 * nt + 3 * len(res["segs"]) + 1
+        kinds = set()
+        for kind, detail, tick in bad:
+            if kind in kinds:
+                continue
+            kinds.add(kind)
+            run.violation({"kind": kind, "site": "LFO"}, {
+                "case": {"scenario": sc, "what": "lfo_script"}, "observed": detail, "tick": tick,
+                "oracle": "range / period / pattern-read oracle from the property text, against the configuration given last",
+                "all_failures_in_this_case": [b[1] for b in bad][:8], "python": snippet_lfo_script(sc)})
+        if res["raise"] is not None:
+            continue
+        run.cov["ticks_compared"] = run.cov.get("ticks_compared", 0) + nt
+        terms.append(lfo_script_term(sc, res))
+        meta.append((sc, res, bool(bad)))
+        if nt > 0:
+            run.nontrivial(json.dumps(sc, sort_keys=True))
+        run.sample({"lfo_script": sc, "values_after_first_ticks": [v[0] for r in res["segs"] for v in r["ticks"]][:6]}, limit=2)
+    failing = run.coq_failing(HEADER, terms, chunk=max(2, len(terms) // 12 + 1))
+    run.cov["traces_validated_against_impl"] += len(terms) - len(failing)
+    for i in failing:
+        sc, res, judged = meta[i]
+        if judged:
+            continue
+        run.violation({"kind": "correspondence", "site": "LFO"}, {
+            "case": {"scenario": sc, "what": "lfo_script"},
+            "observed": "implementation and model (coq/Auto/Lfo.v lfo_run / tl_lfo) disagree on this history: lfo.value after some "
+                        "re-configuration or tick differs by more than 1e-9 from the waveform of the configuration given last at the "
+                        "running clock, or Timeline.lfo(name=...) did not find / create the LFO the model says",
+            "implementation": {"init": res["init"], "segs": [{"value": r["value"], "same": r["same"], "n_lfos": r["n_lfos"],
+                                                               "ticks": [v[0] for v in r["ticks"]][:40]} for r in res["segs"]]},
+            "python": snippet_lfo_script(sc)})
+
+
 def check(run):
     quick = run.tier == "quick"
     cases = gen_grid(run) + gen_traps(run, 6 if quick else 40) + gen_malformed(run)
     cases += gen_random(run, 170 if quick else 4000, 5 if quick else 40)
+    cases += gen_reconfig(run, 60 if quick else 1200)
     for i in range(0, len(cases), 1500):
         run_autos(run, cases[i:i + 1500])
     run_lfos(run, gen_lfos(run, 40 if quick else 400))
+    run_lfo_scripts(run, gen_lfo_scripts(run, 48 if quick else 500))
     run.cov["rule"] = ("one case = one scenario on a fresh Timeline: an automation (range none/clip/wrap, initial, default_duration, 0-3 bindings) "
                        "driven by a sequence of move_to / move_by / jump_to / bind_to calls with ticks in between, or one LFO (frequency, range) "
                        "ticked for > 2 periods and read through PLFO from two scheduled tracks; every value after every operation and tick is "
-                       "compared with the Coq model. distinct by the full scenario; non-trivial = at least one tick was executed.")
+                       "compared with the Coq model; or one LFO / automation history with re-configurations (attribute assignment, update, Timeline.lfo(name=existing), "
+                       "reset; range / boundaries / default_duration) at random ticks, observed after every operation and tick. "
+                       "distinct by the full scenario; non-trivial = at least one tick was executed.")
 
 
 def replay(run, doc):
@@ -751,6 +1172,8 @@ def replay(run, doc):
     sc = case["scenario"]
     if case.get("what") == "lfo":
         run_lfos(run, [sc])
+    elif case.get("what") == "lfo_script":
+        run_lfo_scripts(run, [sc])
     else:
         run_autos(run, [(sc, info_from_json(case["oracle_info"]))])
     for v in run.violations:
